@@ -20,7 +20,7 @@ def run(ctx):
     variants = []
     for cores in ([1, 2, 5, 16] if ctx.quick else [1, 2, 3, 5, 8, 16]):
         variants.append({"impl": "basic", "cores": cores})
-        variants.append({"impl": "compact", "cores": cores})
+        variants.append({"impl": "compact", "cores": cores, "max": (10, 60)})
     sections = ["lookup", "search", "each", "problems", "build", "observe", "validity"]
     return sworld.run_static(
         ctx, "C36", 1, variants=variants, sections=sections,
